@@ -228,10 +228,23 @@ package deflate
 
 //@ funcvar optimizedEncodeBytes
 //@   params hist, data, buf -> num
-//@   trusted "encodeBytes, or (acceleration level 4) the assembly encoder followed by encodeBytes: assumed to satisfy encodeBytes' contract"
+//@   trusted "contract of the variable, assumed at its call sites; the two values it is ever given - encodeBytes (generic) and the closure init#2$1 of huffmanonly_amd64.go (amd64) - are each verified against this same contract, so what is left assumed is that the variable holds one of them (it is assigned in init only) and the contract of the assembly routine the closure calls"
 //@   requires hist != nil && buf != nil && bufOK(buf) && buf.idx + 8 <= len(buf.output) && len(buf.output) <= 1073741824 && len(data) > 0 && len(data) <= 1073741824 && histLitOK(hist)
 //@   modifies buf.idx, buf.bits, buf.bitLen, buf.output[*]
 //@   ensures 0 <= num && num <= len(data) && bufOK(buf) && buf.idx <= len(buf.output) && (num == len(data) ==> buf.idx + 8 <= len(buf.output))
+
+// the closure assigned to optimizedEncodeBytes in the amd64 configuration (huffmanonly_amd64.go): verified against
+// the contract of the variable, with only the assembly routine assumed
+//@ func encodeHuffmansArchV4
+//@   trusted "assembly (huffmanonly_amd64.s): assumed to leave at least the last 32 input bytes to the Go encoder and the bit buffer in its invariant with 8 bytes of room"
+//@   requires hist != nil && buf != nil && bufOK(buf) && buf.idx + 8 <= len(buf.output) && len(buf.output) <= 1073741824 && len(input) > 0 && len(input) <= 1073741824 && histLitOK(hist)
+//@   modifies buf.idx, buf.bits, buf.bitLen, buf.output[*]
+//@   ensures 0 <= result && result < len(input) && bufOK(buf) && buf.idx + 8 <= len(buf.output)
+
+//@ func init#2$1
+//@   requires hist != nil && buf != nil && bufOK(buf) && buf.idx + 8 <= len(buf.output) && len(buf.output) <= 1073741824 && len(data) > 0 && len(data) <= 1073741824 && histLitOK(hist)
+//@   modifies buf.idx, buf.bits, buf.bitLen, buf.output[*]
+//@   ensures[C01 C10 C18 dispatch] 0 <= num && num <= len(data) && bufOK(buf) && buf.idx <= len(buf.output) && (num == len(data) ==> buf.idx + 8 <= len(buf.output))
 
 // lenSymOfSlot: the RFC 1951 length symbol (265..284) that covers the per-length counter slot y = 254 + length,
 // for lengths 11..258 (slots 265..512); lengths 3..10 have one symbol each (slots 257..264, untouched).
